@@ -1,1 +1,4 @@
+import PtaProofs.Props.C08
+import PtaProofs.Props.C12
+import PtaProofs.Props.C17
 import PtaProofs.Props.Tables
